@@ -861,6 +861,11 @@ func (p *Policy) sanitizeStyles(attr html.Attribute, elementName string) html.At
 
 decLoop:
 	for _, dec := range decs {
+		if !cssValueSelfContained(dec.Value) {
+			// Joined to the declarations after it the value would swallow
+			// their separator
+			continue
+		}
 		tempProperty := strings.ToLower(dec.Property)
 		tempValue := removeUnicode(strings.ToLower(dec.Value))
 		for _, i := range prefixes {
@@ -913,6 +918,58 @@ decLoop:
 		attr.Val = ""
 	}
 	return attr
+}
+
+// cssValueSelfContained reports whether a declaration value closes every
+// block, string, comment and escape that it opens, which is what makes the
+// "; " written after it the end of the declaration for a browser too
+func cssValueSelfContained(value string) bool {
+	var closers []byte
+	for i := 0; i < len(value); i++ {
+		switch c := value[i]; c {
+		case '\\':
+			i++
+			if i >= len(value) {
+				return false
+			}
+		case '"', '\'':
+			closed := false
+			for i++; i < len(value) && !closed; i++ {
+				switch value[i] {
+				case '\\':
+					i++
+				case '\n', '\r', '\f':
+					return false
+				case c:
+					closed = true
+				}
+			}
+			if !closed {
+				return false
+			}
+			i--
+		case '/':
+			if i+1 < len(value) && value[i+1] == '*' {
+				end := strings.Index(value[i+2:], "*/")
+				if end < 0 {
+					return false
+				}
+				i += end + 3
+			}
+		case '(':
+			closers = append(closers, ')')
+		case '[':
+			closers = append(closers, ']')
+		case '{':
+			closers = append(closers, '}')
+		case ')', ']', '}':
+			if len(closers) == 0 || closers[len(closers)-1] != c {
+				return false
+			}
+			closers = closers[:len(closers)-1]
+		}
+	}
+	return len(closers) == 0
 }
 
 func (p *Policy) allowNoAttrs(elementName string) bool {
